@@ -12,6 +12,8 @@ CONSTANTS
   Suspenders <- XSus
   SigOf <- SigOfDef
   SusFuts <- SusFutsDef
+  SusBand = {"s3"}
+  NoReplayDevs = {}
   ReadVal <- ReadValDef
   DataKeys <- DataKeysDef
   FutNames = {"f1", "f2", "s1a", "s1b", "s1c", "s1d", "s2a", "s2b", "s2c", "s2d"}
